@@ -91,9 +91,13 @@ Definition spec_scheme (kw : str) : option str :=
   if str_eqb kw (b "DIRECT") then None
   else if str_eqb kw (b "PROXY") then Some (b "http")
   else Some (lower kw).
-Definition host_char_ok (c : N) : bool := (32 <? c) && (c <? 127).     (* visible ASCII: no space, no control *)
+Definition host_char_ok (c : N) : bool := negb (blank_or_control c).     (* no blank, no control character *)
 
-Inductive entry_spec := SDirect | SProxy (kw host port : str) | SMalformed.
+Inductive entry_spec :=
+| SDirect                                 (* no proxy *)
+| SProxy (kw host port : str)             (* a proxy of the type the keyword names *)
+| SUnknown (kw host port : str)           (* an unrecognised keyword is treated as DIRECT (so says property C05) *)
+| SMalformed.
 
 (* a well-formed entry, after trimming white space around it *)
 Definition spec_entry (s0 : str) : entry_spec :=
@@ -103,14 +107,14 @@ Definition spec_entry (s0 : str) : entry_spec :=
   else match cut_byte 32 s with
        | None => SMalformed
        | Some (kw, hp) =>
-           if negb (existsb (str_eqb kw) known_keywords) then SMalformed
-           else match split_host_port hp with
-                | None => SMalformed
-                | Some (h, p) =>
-                    if nil_str h || negb (forallb host_char_ok h) then SMalformed
-                    else if negb (valid_port16 p) then SMalformed
-                    else SProxy kw h p
-                end
+           match split_host_port hp with
+           | None => SMalformed
+           | Some (h, p) =>
+               if nil_str h || negb (forallb host_char_ok h) then SMalformed
+               else if negb (valid_port16 p) then SMalformed
+               else if existsb (str_eqb kw) known_keywords then SProxy kw h p
+               else SUnknown kw h p
+           end
        end.
 
 (* ---- helper semantics under the reference ---- *)
